@@ -47,7 +47,7 @@ def collect(rep, tier, rnd):
                     if "callable" in name or name == "KernelRIM" or not (tier == "thorough" or decorated or rnd.random() < 0.3):
                         continue
                     for n2 in (n + 2, n - 1):
-                        if decorated and n2 < 4:
+                        if decorated and n2 < n:          # the link constraints name sample n-1: only data at least as long
                             continue
                         X2 = train.make_data(n2, d, rnd)
                         y2 = None if y is None else train.id_affinity(n2)
